@@ -298,4 +298,354 @@ Section RunProofs.
         inversion H; subst. eapply RunStep; eauto.
         left. auto.
   Qed.
+
+  (* ---- invariants of the stack ------------------------------------------ *)
+
+  Definition inv (stk : stack) : Prop := rle_ok stk /\ stack_from_table sts stk /\ stk <> [].
+
+  Hypothesis initial_from_table : from_table sts initial.
+
+  Lemma get_state_from_table : forall tid s, get_state sts tid = Some s -> from_table sts s.
+  Proof.
+    unfold from_table, get_state. intros tid s H.
+    destruct (find_some _ _ H) as [_ Hid]. apply Nat.eqb_eq in Hid. rewrite Hid. exact H.
+  Qed.
+
+  Lemma stack_after_inv : forall r stk stk', inv stk -> stack_after r stk stk' -> inv stk'.
+  Proof.
+    intros r stk stk' [Hok [Hft Hne]] [[_ Heq]|[tid [op [state [_ [Hg Ha]]]]]].
+    - subst stk'. split; [|split]; assumption.
+    - destruct (rle_stack_refines_stack sts initial stk op state Hok Hft
+                  (get_state_from_table _ _ Hg) initial_from_table) as [_ [_ H]].
+      destruct (H stk' Ha) as [H1 [H2 H3]]. split; [|split]; assumption.
+  Qed.
+
+  Lemma stack_after_next : forall r stk stk', inv stk -> stack_after r stk stk' ->
+    next_stack sts initial stk r stk'.
+  Proof.
+    intros r stk stk' [Hok [Hft Hne]] [[Ht Heq]|[tid [op [state [Ht [Hg Ha]]]]]];
+      unfold next_stack; rewrite Ht.
+    - exact Heq.
+    - exists state. split; [exact Hg|].
+      destruct (rle_stack_refines_stack sts initial stk op state Hok Hft
+                  (get_state_from_table _ _ Hg) initial_from_table) as [H _].
+      rewrite Ha in H. simpl in H. symmetry. exact H.
+  Qed.
+
+  Lemma current_top : forall c cur rest, rle_ok ((c, cur) :: rest) ->
+    current ((c, cur) :: rest) = Some cur.
+  Proof.
+    intros c cur rest H. inversion H as [|? ? Hc _]; subst. simpl in Hc.
+    unfold current. simpl. destruct c as [|c]; [lia|]. reflexivity.
+  Qed.
+
+  Lemma emit_none : forall r i L, emit r i L = None -> exists nm, r_name r = Some nm /\ r_tok r = None.
+  Proof.
+    unfold emit. intros r i L H. destruct (r_name r) as [nm|]; [|discriminate].
+    destruct (r_tok r); [discriminate|]. exists nm. split; reflexivity.
+  Qed.
+
+  Lemma emit_step_items : forall R r i L em, nth_error rules R = Some r -> emit r i L = Some em ->
+    step_items rules R i L = em /\ (r_name r <> None -> r_tok r <> None).
+  Proof.
+    unfold emit, step_items. intros R r i L em Hn H. rewrite Hn.
+    destruct (r_name r) as [nm|].
+    - destruct (r_tok r) as [t|]; [|discriminate]. inversion H. split; [reflexivity|]. intros _. discriminate.
+    - inversion H. split; [reflexivity|]. intros Hc. congruence.
+  Qed.
+
+  Definition wf_rules : Prop :=
+    (forall r tid op, In r rules -> r_target r = Some (tid, op) ->
+       exists s, get_state sts tid = Some s) /\
+    (forall r nm, In r rules -> r_name r = Some nm -> exists t, r_tok r = Some t).
+
+  (* ---- choice ------------------------------------------------------------ *)
+
+  Lemma run_choice : forall i stk res, run i stk res -> inv stk ->
+    (forall s, In s (steps res) ->
+       exists cur, current (st_stack s) = Some cur /\
+         chosen rules m cur (st_pos s) (st_rule s) (st_len s) /\ ~ no_match rules m cur (st_pos s)) /\
+    (forall pos cur, stopped res = StopNoMatch pos cur -> no_match rules m cur pos) /\
+    (wf_rules -> (exists pos, stopped res = StopEnd pos) \/
+                 (exists pos cur, stopped res = StopNoMatch pos cur)) /\
+    (forall pos, stopped res <> StopEmptyStack pos) /\
+    (forall pos r l, stopped res <> StopPopEmpty pos r l).
+  Proof.
+    intros i stk res Hrun. induction Hrun; intros Hinv; simpl.
+    - split; [intros s []|]. split; [discriminate|]. split; [intros _; left; eauto|].
+      split; discriminate.
+    - destruct Hinv as [_ [_ Hne]]. congruence.
+    - split; [intros s []|]. split.
+      { intros pos cur' Heq. inversion Heq; subst. eapply scan_no_match; eauto. }
+      split; [intros _; right; eauto|]. split; discriminate.
+    - split; [intros s []|]. split; [discriminate|]. split; [|split; discriminate].
+      intros [_ Hw]. destruct (emit_none _ _ _ H3) as [nm [Hnm Ht]].
+      destruct (Hw r nm (nth_error_In _ _ H2) Hnm) as [t Ht']. congruence.
+    - split; [intros s []|]. split; [discriminate|]. split; [|split; discriminate].
+      intros [Hw _]. destruct (Hw r tid op (nth_error_In _ _ H2) H4) as [s Hs]. congruence.
+    - destruct Hinv as [Hok [Hft Hne]].
+      destruct (rle_stack_refines_stack sts initial _ op state Hok Hft
+                  (get_state_from_table _ _ H5) initial_from_table) as [_ [Hsome _]].
+      exfalso. apply (Hsome Hne). assumption.
+    - destruct (IHHrun (stack_after_inv _ _ _ Hinv H4)) as [IH1 [IH2 [IH3 [IH4 IH5]]]].
+      split; [|split; [|split; [|split]]]; try assumption.
+      intros s [Hs|Hs]; [|apply IH1; exact Hs]. subst s. simpl.
+      exists cur. split; [apply current_top; apply Hinv|].
+      assert (Hc : chosen rules m cur i R L) by (eapply scan_chosen; eauto).
+      split; [exact Hc|]. eapply chosen_not_no_match; eauto.
+  Qed.
+
+  (* ---- tiling ------------------------------------------------------------ *)
+
+  Lemma run_tiles : forall i stk res, run i stk res ->
+    contiguous i (steps res) (stop_pos (stopped res)) /\
+    (forall s, In s (steps res) -> st_pos s < n) /\
+    (forall pos, stopped res = StopEnd pos ->
+       n <= pos /\ (oracle_in_bounds m n -> i <= n -> pos = n)) /\
+    (forall pos cur, stopped res = StopNoMatch pos cur -> pos < n).
+  Proof.
+    intros i stk res Hrun. induction Hrun; simpl.
+    - split; [reflexivity|]. split; [intros s []|]. split; [|discriminate].
+      intros pos Heq. inversion Heq; subst. split; [assumption|]. intros _ Hle. lia.
+    - split; [reflexivity|]. split; [intros s []|]. split; discriminate.
+    - split; [reflexivity|]. split; [intros s []|]. split; [discriminate|].
+      intros pos cur' Heq. inversion Heq; subst. assumption.
+    - split; [reflexivity|]. split; [intros s []|]. split; discriminate.
+    - split; [reflexivity|]. split; [intros s []|]. split; discriminate.
+    - split; [reflexivity|]. split; [intros s []|]. split; discriminate.
+    - destruct IHHrun as [IH1 [IH2 [IH3 IH4]]].
+      split; [split; [reflexivity|split; [assumption|exact IH1]]|].
+      split. { intros s [Hs|Hs]; [subst s; simpl; assumption|apply IH2; exact Hs]. }
+      split; [|exact IH4].
+      intros pos Heq. destruct (IH3 pos Heq) as [Hn Hb]. split; [exact Hn|].
+      intros Hib _. apply Hb; [exact Hib|].
+      destruct (scan_chosen _ _ _ _ H0 H1) as [r0 [_ [_ [_ [Hm _]]]]].
+      apply (Hib _ _ _ Hm).
+  Qed.
+
+  (* ---- emission ---------------------------------------------------------- *)
+
+  Lemma run_emit : forall i stk res, run i stk res ->
+    items res = flat_map (fun s => step_items rules (st_rule s) (st_pos s) (st_len s)) (steps res)
+                ++ stop_items rules (stopped res) /\
+    (forall s, In s (steps res) ->
+       exists r, nth_error rules (st_rule s) = Some r /\ (r_name r <> None -> r_tok r <> None)).
+  Proof.
+    intros i stk res Hrun. induction Hrun; simpl.
+    - split; [reflexivity|intros s []].
+    - split; [reflexivity|intros s []].
+    - split; [reflexivity|intros s []].
+    - split; [reflexivity|intros s []].
+    - destruct (emit_step_items _ _ _ _ _ H2 H3) as [He _]. rewrite He.
+      split; [reflexivity|intros s []].
+    - destruct (emit_step_items _ _ _ _ _ H2 H3) as [He _]. rewrite He.
+      split; [reflexivity|intros s []].
+    - destruct IHHrun as [IH1 IH2]. destruct (emit_step_items _ _ _ _ _ H2 H3) as [He Hnt].
+      split.
+      + rewrite He, IH1, app_assoc. reflexivity.
+      + intros s [Hs|Hs]; [|apply IH2; exact Hs]. subst s. simpl. exists r. split; assumption.
+  Qed.
+
+  (* ---- start-state stacks ------------------------------------------------ *)
+
+  Lemma run_states : forall i stk res, run i stk res -> inv stk ->
+    exists final,
+      stacks_chain rules sts initial stk (steps res) final /\
+      (forall s, In s (steps res) -> rle_ok (st_stack s) /\ st_stack s <> []) /\
+      (forall pos cur, stopped res = StopNoMatch pos cur -> current final = Some cur).
+  Proof.
+    intros i stk res Hrun. induction Hrun; intros Hinv; simpl.
+    - exists stk. split; [reflexivity|]. split; [intros s []|discriminate].
+    - exists []. split; [reflexivity|]. split; [intros s []|discriminate].
+    - exists ((c, cur) :: rest). split; [reflexivity|]. split; [intros s []|].
+      intros pos cur' Heq. inversion Heq; subst. apply current_top. apply Hinv.
+    - exists ((c, cur) :: rest). split; [reflexivity|]. split; [intros s []|discriminate].
+    - exists ((c, cur) :: rest). split; [reflexivity|]. split; [intros s []|discriminate].
+    - exists ((c, cur) :: rest). split; [reflexivity|]. split; [intros s []|discriminate].
+    - destruct (IHHrun (stack_after_inv _ _ _ Hinv H4)) as [final [IH1 [IH2 IH3]]].
+      exists final. split; [|split; [|exact IH3]].
+      + split; [reflexivity|]. exists r, stk'. split; [assumption|].
+        split; [apply stack_after_next; assumption|exact IH1].
+      + intros s [Hs|Hs]; [|apply IH2; exact Hs]. subst s. simpl.
+        destruct Hinv as [Hok [_ Hne]]. split; assumption.
+  Qed.
+
+  (* ---- totality ---------------------------------------------------------- *)
+
+  Lemma lex_loop_not_fuel : forall fuel i stk, n < i + fuel ->
+    lex_loop rules sts m bd n initial fuel i stk <> OutOfFuel.
+  Proof.
+    induction fuel as [|fuel IH]; intros i stk Hf; simpl.
+    - destruct (n <=? i) eqn:E; [discriminate|]. apply Nat.leb_gt in E. lia.
+    - destruct (n <=? i) eqn:E; [discriminate|]. apply Nat.leb_gt in E.
+      destruct stk as [|[c cur] rest]; [discriminate|].
+      destruct (scan_rules m bd cur i rules 0 0 0) as [[L R]| |] eqn:Es; simpl; try discriminate.
+      { destruct (0 <? L) eqn:EL; [|discriminate]. apply Nat.ltb_lt in EL.
+        destruct (nth_checked rules R) as [r| |] eqn:En; simpl; try discriminate.
+        2:{ unfold nth_checked in En. destruct (nth_error rules R); discriminate. }
+        destruct (emit r i L) as [em|]; [|discriminate].
+        assert (Hrec : forall stk', (do res <- lex_loop rules sts m bd n initial fuel (i + L) stk';
+                   Done (mk (em ++ items res)
+                            ({| st_pos := i; st_stack := (c, cur) :: rest; st_rule := R; st_len := L |}
+                               :: steps res) (stopped res))) <> OutOfFuel).
+        { intros stk'. specialize (IH (i + L) stk').
+          destruct (lex_loop rules sts m bd n initial fuel (i + L) stk'); simpl; try discriminate.
+          intros _. apply IH; [lia|reflexivity]. }
+        destruct (r_target r) as [[tid op]|]; [|apply Hrec].
+        destruct (get_state sts tid) as [state|]; [|discriminate].
+        destruct (apply_op_rle initial ((c, cur) :: rest) op state); [apply Hrec|discriminate]. }
+      exfalso. eapply scan_not_fuel; eauto.
+  Qed.
+
+  Lemma lex_loop_done : forall fuel i stk,
+    oracle_on_boundaries m bd -> bd i = true -> n < i + fuel ->
+    exists res, lex_loop rules sts m bd n initial fuel i stk = Done res.
+  Proof.
+    intros fuel i stk Hob. revert i stk.
+    induction fuel as [|fuel IH]; intros i stk Hb Hf; simpl.
+    - destruct (n <=? i) eqn:E; [eauto|]. apply Nat.leb_gt in E. lia.
+    - destruct (n <=? i) eqn:E; [eauto|]. apply Nat.leb_gt in E.
+      destruct stk as [|[c cur] rest]; [eauto|].
+      destruct (scan_done cur i rules 0 0 0 Hb) as [L [R Hs]]. rewrite Hs. simpl.
+      destruct (0 <? L) eqn:EL; [|eauto]. apply Nat.ltb_lt in EL.
+      destruct (scan_chosen _ _ _ _ Hs EL) as [r [Hn [_ [_ [Hm _]]]]].
+      unfold nth_checked. rewrite Hn. simpl.
+      destruct (emit r i L) as [em|]; [|eauto].
+      assert (Hrec : forall stk', exists res,
+                 (do res <- lex_loop rules sts m bd n initial fuel (i + L) stk';
+                   Done (mk (em ++ items res)
+                            ({| st_pos := i; st_stack := (c, cur) :: rest; st_rule := R; st_len := L |}
+                               :: steps res) (stopped res))) = Done res).
+      { intros stk'. destruct (IH (i + L) stk') as [res' Hr].
+        - destruct Hob as [_ Hob]. eapply Hob; eauto.
+        - lia.
+        - rewrite Hr. simpl. eauto. }
+      destruct (r_target r) as [[tid op]|]; [|apply Hrec].
+      destruct (get_state sts tid) as [state|]; [|eauto].
+      destruct (apply_op_rle initial ((c, cur) :: rest) op state); [apply Hrec|eauto].
+  Qed.
 End RunProofs.
+
+(* ---- the statements ------------------------------------------------------ *)
+
+Lemma initial_inv : forall sts initial, get_state sts 0 = Some initial ->
+  from_table sts initial /\ inv sts [(1, initial)].
+Proof.
+  intros sts initial H. assert (Hf : from_table sts initial) by (eapply get_state_from_table; eauto).
+  split; [exact Hf|]. split; [|split].
+  - constructor; [simpl; lia|constructor].
+  - constructor; [exact Hf|constructor].
+  - discriminate.
+Qed.
+
+Lemma lex_total : lex_total_stmt.
+Proof.
+  intros rules sts m bd n. unfold lex_total_at, lex. split.
+  - destruct (get_state sts 0) as [initial|]; [|discriminate].
+    apply lex_loop_not_fuel. lia.
+  - intros Hob. destruct (get_state sts 0) as [initial|]; [|eauto].
+    apply lex_loop_done; [exact Hob|apply Hob|lia].
+Qed.
+
+Lemma lex_choice_spec : lex_choice_spec_stmt.
+Proof.
+  intros rules sts m bd n res H. unfold lex in H.
+  destruct (get_state sts 0) as [initial|] eqn:E0.
+  - destruct (initial_inv _ _ E0) as [Hf Hinv].
+    apply lex_loop_run in H.
+    destruct (run_choice rules sts m bd n initial Hf _ _ _ H Hinv) as [H1 [H2 [H3 [H4 H5]]]].
+    split; [exact H1|]. split; [exact H2|]. split; [|split; assumption].
+    intros [_ [Hw1 Hw2]]. apply H3. split; assumption.
+  - inversion H; subst. simpl. split; [intros s []|]. split; [discriminate|].
+    split; [|split; discriminate].
+    intros [[s0 Hs0] _]. rewrite E0 in Hs0. discriminate.
+Qed.
+
+Lemma lex_tiles : lex_tiles_stmt.
+Proof.
+  intros rules sts m bd n res H. unfold lex in H.
+  destruct (get_state sts 0) as [initial|] eqn:E0.
+  - apply lex_loop_run in H.
+    destruct (run_tiles rules sts m bd n initial _ _ _ H) as [H1 [H2 [H3 H4]]].
+    split; [exact H1|]. split; [exact H2|]. split; [|exact H4].
+    intros pos Hp. destruct (H3 pos Hp) as [Ha Hb]. split; [exact Ha|].
+    intros Hib. apply Hb; [exact Hib|lia].
+  - inversion H; subst. simpl. split; [reflexivity|]. split; [intros s []|].
+    split; discriminate.
+Qed.
+
+Lemma named_emit_unnamed_skip : named_emit_unnamed_skip_stmt.
+Proof.
+  intros rules sts m bd n res H. unfold lex in H.
+  destruct (get_state sts 0) as [initial|] eqn:E0.
+  - apply lex_loop_run in H. apply (run_emit rules sts m bd n initial _ _ _ H).
+  - inversion H; subst. simpl. split; [reflexivity|intros s []].
+Qed.
+
+Lemma lex_states : lex_states_stmt.
+Proof.
+  intros rules sts m bd n initial res E0 H. unfold lex in H. rewrite E0 in H.
+  destruct (initial_inv _ _ E0) as [Hf Hinv].
+  apply lex_loop_run in H.
+  apply (run_states rules sts m bd n initial Hf _ _ _ H Hinv).
+Qed.
+
+(* the hypotheses of the conditional clauses are satisfiable, and the theorems
+   speak about a run that exercises push, a repeated push, pops down to and
+   past the bottom, a tie and a skip rule *)
+Module Example.
+  Definition INITIAL := {| ss_id := 0; ss_excl := false |}.
+  Definition X := {| ss_id := 1; ss_excl := true |}.
+  Definition ex_sts := [INITIAL; X].
+  (* 0: "ab" 'KW'   1: [a-z]+ 'ID'   2: "(" <+X> ;   3: <X>"(" <+X> 'OPEN'
+     4: <X,INITIAL>")" <-X> 'CLOSE'  5: <X>[a-z] 'CH' *)
+  Definition ex_rules := [
+    {| r_name := Some 0; r_tok := Some 10; r_states := []; r_target := None |};
+    {| r_name := Some 1; r_tok := Some 11; r_states := []; r_target := None |};
+    {| r_name := None; r_tok := Some 2; r_states := []; r_target := Some (1, Push) |};
+    {| r_name := Some 3; r_tok := Some 13; r_states := [1]; r_target := Some (1, Push) |};
+    {| r_name := Some 4; r_tok := Some 14; r_states := [1; 0]; r_target := Some (1, Pop) |};
+    {| r_name := Some 5; r_tok := Some 15; r_states := [1]; r_target := None |} ].
+  (* input: a b ( ( a ) ) ) a ?     (10 bytes) *)
+  Definition ex_m (r p : nat) : option nat :=
+    match r, p with
+    | 0, 0 => Some 2 | 1, 0 => Some 2 | 1, 1 => Some 1
+    | 2, 2 | 2, 3 | 3, 2 | 3, 3 => Some 1
+    | 1, 4 | 5, 4 => Some 1
+    | 4, 5 | 4, 6 | 4, 7 => Some 1
+    | 1, 8 | 5, 8 => Some 1
+    | _, _ => None
+    end.
+  Definition ex_bd (p : nat) := true.
+
+  Example ex_wf : wf_spec ex_rules ex_sts.
+  Proof.
+    split; [exists INITIAL; reflexivity|]. split.
+    - intros r tid op Hin Ht. simpl in Hin.
+      repeat (destruct Hin as [Hin|Hin]; [subst r; simpl in Ht; try discriminate;
+                                          inversion Ht; subst; eexists; reflexivity|]).
+      destruct Hin.
+    - intros r nm Hin Hn. simpl in Hin.
+      repeat (destruct Hin as [Hin|Hin]; [subst r; simpl; eexists; reflexivity|]).
+      destruct Hin.
+  Qed.
+
+  Example ex_oracle : oracle_on_boundaries ex_m ex_bd /\ oracle_in_bounds ex_m 10.
+  Proof.
+    split; [split; [reflexivity|intros; reflexivity]|].
+    intros r p l H. unfold ex_m in H.
+    do 6 (destruct r as [|r]; [do 9 (destruct p as [|p]; [inversion H; lia|]); try discriminate|]);
+      try discriminate.
+    all: destruct p; discriminate.
+  Qed.
+
+  Example ex_run :
+    option_map (fun r => (items r, map st_stack (steps r), stopped r))
+      (match lex ex_rules ex_sts ex_m ex_bd 10 with Done r => Some r | _ => None end) =
+    Some ([Lexeme 10 0 2; Lexeme 13 3 1; Lexeme 15 4 1; Lexeme 14 5 1; Lexeme 14 6 1;
+           Lexeme 14 7 1; Lexeme 11 8 1; LexErr 9 (Some 0)],
+          [[(1, INITIAL)]; [(1, INITIAL)]; [(1, X); (1, INITIAL)]; [(2, X); (1, INITIAL)];
+           [(2, X); (1, INITIAL)]; [(1, X); (1, INITIAL)]; [(1, INITIAL)]; [(1, INITIAL)]],
+          StopNoMatch 9 INITIAL).
+  Proof. vm_compute. reflexivity. Qed.
+End Example.
